@@ -301,6 +301,7 @@ void SPxScaler<R>::unscale(SPxLPBase<R>& lp)
    }
 
    lp._isScaled = false;
+   lp.lp_scaler = nullptr;   // "points to the scaler if the lp has been scaled, to nullptr otherwise"
    assert(lp.isConsistent());
 }
 
